@@ -4,7 +4,7 @@
 set -e
 D=$(mktemp -d /tmp/gmut.XXXXXX)
 trap 'rm -rf "$D"' EXIT
-cp -r /repo/src /repo/tests /repo/Makefile /repo/CudaArch.mk "$D"/ 2>/dev/null || true
+cp -r /repo/src /repo/tests /repo/utils /repo/Makefile /repo/CudaArch.mk "$D"/ 2>/dev/null || true
 if [ "$1" = "-e" ]; then
   sed -i "$2" "$D/$3"; shift 3
   diff -r /repo/src "$D/src" | head -20 || true
